@@ -119,7 +119,7 @@ func (m *feedModel) text() string {
 
 type presentation struct {
 	ColOrder     int  // 0 identity, 1 reversed, 2 rotated by one
-	ExtraCol     int  // 0 none, 1 first, 2 middle, 3 last, 4: seventy unknown columns first (every known column beyond index 64)
+	ExtraCol     int  // 0 none, 1 first, 2 middle, 3 last, 4: seventy unknown columns first (every known column beyond index 64), 5: two unknown columns sharing one name, last
 	ExtraFile    bool // an unknown member in the archive
 	ReverseFiles bool
 	Deflate      bool
@@ -161,6 +161,10 @@ func renderCSV(t *table, p presentation) []byte {
 	extraAt := -1
 	nExtra := 1
 	switch p.ExtraCol {
+	case 5: // two unknown columns with the SAME name, last
+		extraAt, nExtra = len(idx), 2
+	case 6: // an unknown column in front whose cells are blank in every row
+		extraAt = 0
 	case 4:
 		extraAt, nExtra = 0, 70
 	case 1:
@@ -184,8 +188,8 @@ func renderCSV(t *table, p presentation) []byte {
 			if k == extraAt {
 				for x := 0; x < nExtra; x++ {
 					e := extra
-					if x > 0 {
-						e = fmt.Sprintf("%s%d", extra, x)
+					if x > 0 && !(p.ExtraCol == 5 && extra == "x_unknown_column") {
+						e = fmt.Sprintf("%s%d", extra, x) // header cells of option 5 keep the same name
 					}
 					f = append(f, csvField(e, p.QuoteAll))
 				}
@@ -199,7 +203,11 @@ func renderCSV(t *table, p presentation) []byte {
 	lines := []string{line(func(i int) string { return cols[i] }, "x_unknown_column")}
 	for r, row := range t.Rows {
 		row := row
-		l := line(func(i int) string { return row[i] }, fmt.Sprintf("junk %d, \"q\"", r))
+		junk := fmt.Sprintf("junk %d, \"q\"", r)
+		if p.ExtraCol == 6 {
+			junk = ""
+		}
+		l := line(func(i int) string { return row[i] }, junk)
 		if keep, ok := t.Short[r]; ok {
 			// cut the rendered row after `keep` cells (only used with the default column order, no extra column, plain cells)
 			l = strings.Join(strings.Split(l, ",")[:keep], ",")
